@@ -1,4 +1,5 @@
 import Generated.Facts
+import Generated.Trans
 import Model.Msg
 /-
 Tie obligations for C17: the feature thresholds, enum memberships and wire constants the
@@ -86,3 +87,10 @@ theorem tie_C17_skeleton_query :
     Generated.msg_Query_dec = querySkeleton ∧
     Generated.msg_Query_enc = querySkeleton.map (fun (n, g) => if n = "Settings" then (n, [54429]) else (n, g)) ∧
     skel query = expandInfo querySkeleton := by decide
+
+
+/-- `Feature.In(v)`, translated from proto/feature.go on this run, is the comparison `Model.Msg.featIn` that every gate of
+every message descriptor (and the presence theorems `C17_presence_*`, `C17_threshold_exact`) is built on -/
+theorem tie_C17_feature_in (threshold v : Nat) : Generated.Trans.Feature.isIn threshold v = Model.Msg.featIn threshold v := by
+  unfold Generated.Trans.Feature.isIn Generated.Trans.Feature.version Model.Msg.featIn
+  simp [GE.ge]
